@@ -1,12 +1,18 @@
 (* C17 - equivalent ways of describing the same calibration give the same result: the theorems.
-   See docs/design_C17.md. *)
-Require Import ZArith List.
+   See docs/design_C17.md (what is proved on the model AddModel, what is matrix algebra only, what is
+   tested only).  Nothing here speaks about binary64 rounding. *)
+Require Import ZArith List Sorted Permutation.
 Require Import LV.Gen.LayoutGen LV.Cal.TermsModel LV.Cal.AddModel LV.Cal.TermsProofs LV.Cal.C17Proofs.
 Import ListNotations.
 
-(* through p1 p2 = line (0,1;1,0) p1 p2 = mapped matrix [0 1; 1 0] with map {p1, p2}: identical
-   outcome (acceptance, measurement, S cells, connectivity, equations), for all arguments *)
-Theorem through_eq_line_eq_mapped :
+(* ---------------------------------------------------------------------------------- entry points *)
+(* through p1 p2, line (0,1;1,0) p1 p2 and the mapped matrix [0 1; 1 0] with map {p1, p2} hand the same
+   argument structure to _vnacal_new_add_common: identical outcome for all arguments.  BY CONSTRUCTION:
+   the three model entry points are transcriptions of the three C wrappers and the statement holds by
+   unfolding them; its content is the tie of these definitions to the C wrappers (check C17,
+   "entry points" correspondence: the extracted add_through / add_line / add_mapped_matrix against
+   vnacal_new_add_through / _line / _mapped_matrix). *)
+Theorem through_eq_line_eq_mapped_by_construction :
   forall ty mr mc merr valid a_given a_rows a_cols b_rows b_cols port1 port2,
     add_through ty mr mc merr valid a_given a_rows a_cols b_rows b_cols port1 port2
     = add_line ty mr mc merr valid a_given a_rows a_cols b_rows b_cols 0 1 1 0 port1 port2
@@ -15,44 +21,121 @@ Theorem through_eq_line_eq_mapped :
     = add_mapped_matrix ty mr mc merr valid a_given a_rows a_cols b_rows b_cols
         [0; 1; 1; 0]%Z 2 2 (Some [port1; port2]).
 Proof. exact through_eq_line_eq_mapped_lemma. Qed.
-Print Assumptions through_eq_line_eq_mapped.
+Print Assumptions through_eq_line_eq_mapped_by_construction.
 
-(* Bound in the statement: the 704 configurations of TermsProofs.all_cfgs (8 types, dims 1..4, every
-   port set) x the three abbreviated shapes.  Wherever the abbreviated matrix is accepted, its equations
-   are equations of the full matrix with identical terms, and for the types other than T16/U16 the two
-   equation lists are equal. *)
-Theorem full_eq_abbreviated : forall c, In c all_cfgs -> check_abbrev c = true.
-Proof. exact full_eq_abbreviated_lemma. Qed.
-Print Assumptions full_eq_abbreviated.
+(* ---------------------------------------------------------------------------------- the sorted port map *)
+(* the model of the qsort of m_port_map sorts: ascending, same elements (all lists) *)
+Theorem sort_z_sorts : forall l, Sorted Z.le (sort_z l) /\ Permutation l (sort_z l).
+Proof. exact sort_z_sorts_lemma. Qed.
+Print Assumptions sort_z_sorts.
+
+(* For ALL arguments of _vnacal_new_add_common (model): if the same standard is entered with its ports
+   listed in another order (mp' a permutation of the ports used of mp; S cells s' whatever they are) and
+   both calls are accepted, the cell of vnm_m_matrix that every cell of the caller's measurement matrix
+   is stored in is the same: the rows / columns of an (abbreviated) M matrix follow the VNA ports in
+   ascending order, not the order of the map.  (Fails when the sort is replaced by the identity.) *)
+Theorem port_order_irrelevant_for_m_cells : forall a mp mp' s' m m',
+  aa_map a = Some mp ->
+  Permutation (map_ports a) (map_ports (with_map_s a mp' s')) ->
+  add_common a = Accepted m ->
+  add_common (with_map_s a mp' s') = Accepted m' ->
+  ms_m_cells m' = ms_m_cells m.
+Proof. exact port_order_irrelevant_for_m_cells_lemma. Qed.
+Print Assumptions port_order_irrelevant_for_m_cells.
+
+(* the hypotheses are met by a non-trivial pair: ports 4,2,1 and 1,2,4 of a 4 x 4 T8 calibration with a
+   3 x 3 measurement matrix; both accepted, the map is the ascending one and differs from the order given *)
+Example port_order_irrelevant_nonvacuous :
+  let a := x_args (mkX T8 4 4 [4; 2; 1] (SFull 0) false false) 3 3 in
+  let mp' := [1; 2; 4]%Z in
+  aa_map a = Some [4; 2; 1]%Z /\
+  Permutation (map_ports a) (map_ports (with_map_s a mp' (aa_s a))) /\
+  (exists m m', add_common a = Accepted m /\ add_common (with_map_s a mp' (aa_s a)) = Accepted m' /\
+                ms_m_cells m = [0; 1; 3; 4; 5; 7; 12; 13; 15]%nat /\ ms_m_cells m' = ms_m_cells m).
+Proof. exact port_order_irrelevant_nonvacuous_lemma. Qed.
+
+(* ---------------------------------------------------------------------------------- full vs abbreviated *)
+(* BOUNDED SWEEP (the bound is sweep_cfgs, 10000 configurations x the shapes (k, mc), (mr, k), (k, k), k the
+   number of ports of the standard), decided by vm_compute in the kernel:
+     the 8 layout types (E12 as E12_UE14), dimensions 1..4 x 1..4 the type allows, square S only, and
+     A  every non-empty set of VNA ports in EVERY order (2480), all S cells parameters;
+     B  ascending / descending / rotated port maps x {every off-diagonal cell zero and a match, zero above the
+        diagonal, non-zero only at S24 S31 S32 (non-reciprocal), diagonal form vnaa_s_is_diagonal} (5408);
+     C  descending maps x {m_error set, a matrix given, both} (2112).
+   RESTRICTIONS: no rectangular S (T16 / U16 partial S), no unknown-parameter distinction (the model has
+   none), every parameter handle valid, a matrix of the accepted dimensions only.
+   For every configuration (check_x):
+   * the full call is accepted, unless m_error is set on T16 / U16 and the standard has fewer ports than the
+     VNA - then every shape is refused too;
+   * a shape is accepted EXACTLY when shape_allowed says so (written from vnacal_new_add_*(3) and the D48
+     repair, independent of the model), never aborts;
+   * where accepted: the values of the caller's matrix - read as the rows / columns of the standard's ports in
+     ASCENDING order (denoted_cells, written with a filter, not with the sort) - are stored by the copy loop
+     store_m in exactly the cells of vnm_m_matrix in which the full call stores them, and exactly those cells
+     are marked given; vnm_s_matrix and the connectivity matrix are those of the full call;
+   * every equation of the abbreviated call is an equation of the full call with the identical term list;
+     for the 6 types other than T16 / U16 the two equation lists are EQUAL.  For T16 / U16: INCLUSION ONLY
+     (the full matrix adds the rows / columns that carry the in-system leakage terms). *)
+Theorem abbreviated_agrees_with_full_swept : forall c, In c sweep_cfgs -> check_x c = true.
+Proof. exact abbreviated_agrees_with_full_swept_lemma. Qed.
+Print Assumptions abbreviated_agrees_with_full_swept.
+
+(* ---------------------------------------------------------------------------------- order of the standards *)
+(* For ALL lists of vnacal_new_add_* calls (any arguments, accepted or refused) and every linear system:
+   making the same calls in another order yields the same measurements and the same rows
+   (measurement, equation with its terms) of the system, in another order.  This is the model-level half of
+   "the order of the standards does not matter"; the algebra half is order_irrelevant_*_algebra below.
+   (The link between a Permutation of this list and a row_perm of the coefficient matrix is not formalised.) *)
+Theorem add_order_permutes_rows : forall ty sys l l',
+  Permutation l l' ->
+  Permutation (add_all l) (add_all l') /\
+  Permutation (system_rows ty (add_all l) sys) (system_rows ty (add_all l') sys).
+Proof. exact add_order_permutes_rows_lemma. Qed.
+Print Assumptions add_order_permutes_rows.
 
 (* ------------------------------------------------------------------------------------------------ *)
+(* Matrix algebra only (mathcomp, any field, any n).  None of the following mentions AddModel, the solver or
+   the applied S-parameters: they are the identities behind the property, named _algebra. *)
 From mathcomp Require Import all_ssreflect all_fingroup all_algebra.
 Require LV.Cal.CalAlgebra.
 Import GRing.Theory.
 Local Open Scope ring_scope.
 
-(* a common scaling (any invertible right factor D) of simultaneous a and b readings *)
-Theorem ab_scaling (F : fieldType) (r n : nat) (A D : 'M[F]_n) (B : 'M[F]_(r, n)) :
+(* a common scaling (any invertible right factor D) of simultaneous a and b readings: M = B A^-1 is unchanged *)
+Theorem ab_scaling_algebra (F : fieldType) (r n : nat) (A D : 'M[F]_n) (B : 'M[F]_(r, n)) :
   A \in unitmx -> D \in unitmx -> (B *m D) *m invmx (A *m D) = B *m invmx A.
 Proof. exact: CalAlgebra.ab_scaling. Qed.
-Print Assumptions ab_scaling.
+Print Assumptions ab_scaling_algebra.
+Example ab_scaling_algebra_satisfiable (F : fieldType) (n r : nat) (s : 'S_n) (B : 'M[F]_(r, n)) :
+  (B *m perm_mx s) *m invmx (1%:M *m perm_mx s) = B *m invmx 1%:M.
+Proof. exact: CalAlgebra.ab_scaling_satisfiable. Qed.
 
-(* order of the standards: permuting the equations leaves the normal equations (least squares) ... *)
-Theorem order_irrelevant_normal (F : fieldType) (m n : nat) (s : 'S_m) (A : 'M[F]_(m, n)) (b : 'M[F]_(m, 1)) :
-  (row_perm s A)^T *m row_perm s A = A^T *m A /\ (row_perm s A)^T *m row_perm s b = A^T *m b.
-Proof. exact: CalAlgebra.order_irrelevant_normal. Qed.
-Print Assumptions order_irrelevant_normal.
+(* permuting the equations leaves the normal equations A^H A x = A^H b unchanged, A^H = the conjugate
+   transpose (adjoint) for ANY ring morphism cj of the field: complex conjugation gives the Hermitian
+   least-squares problem the C code solves (by QR, not by normal equations: tested only), the identity gives
+   the bilinear A^T A.  Says nothing about rounding or about the QR / LU code. *)
+Theorem order_irrelevant_normal_algebra (F : fieldType) (cj : {rmorphism F -> F}) (m n : nat) (s : 'S_m)
+    (A : 'M[F]_(m, n)) (b : 'M[F]_(m, 1)) :
+  CalAlgebra.adjoint cj (row_perm s A) *m row_perm s A = CalAlgebra.adjoint cj A *m A /\
+  CalAlgebra.adjoint cj (row_perm s A) *m row_perm s b = CalAlgebra.adjoint cj A *m b.
+Proof. exact: CalAlgebra.order_irrelevant_normal_hermitian. Qed.
+Print Assumptions order_irrelevant_normal_algebra.
 
-(* ... and the solution of a square system unchanged *)
-Theorem order_irrelevant_square (F : fieldType) (n : nat) (s : 'S_n) (A : 'M[F]_n) (b : 'M[F]_(n, 1)) :
+(* ... and the exact solution of a square non-singular system *)
+Theorem order_irrelevant_square_algebra (F : fieldType) (n : nat) (s : 'S_n) (A : 'M[F]_n) (b : 'M[F]_(n, 1)) :
   A \in unitmx -> invmx (row_perm s A) *m row_perm s b = invmx A *m b.
 Proof. exact: CalAlgebra.order_irrelevant_square. Qed.
-Print Assumptions order_irrelevant_square.
+Print Assumptions order_irrelevant_square_algebra.
+Example order_irrelevant_square_algebra_satisfiable (F : fieldType) (n : nat) (s : 'S_n) (b : 'M[F]_(n, 1)) :
+  invmx (row_perm s 1%:M) *m row_perm s b = invmx 1%:M *m b.
+Proof. exact: CalAlgebra.order_irrelevant_square_satisfiable. Qed.
 
-(* consistent renumbering of the VNA ports (any invertible P, in particular a permutation matrix):
-   data that fit the model before fit the conjugated model after, so that apply_recovers_T on the
-   conjugated data returns the conjugated DUT matrix *)
-Theorem port_renumbering (F : fieldType) (n : nat) (P Ts Ti Tx Tm S M : 'M[F]_n) :
+(* Conjugation-equivariance of the T-form model equation with FULL n x n error-term matrices (the T16
+   form): if M = (Ts S + Ti)(Tx S + Tm)^-1 then the conjugates by any invertible P satisfy the same equation.
+   A port renumbering is the case P = a permutation matrix.  This is all that is proved about renumbering:
+   it does not mention the solved terms or the applied S, it is not stated for the U / column-system forms,
+   and for the diagonal layouts (T8, TE10) only permutation matrices keep the terms diagonal (not proved). *)
+Theorem port_renumbering_algebra (F : fieldType) (n : nat) (P Ts Ti Tx Tm S M : 'M[F]_n) :
   P \in unitmx ->
   Tx *m S + Tm \in unitmx ->
   M = (Ts *m S + Ti) *m invmx (Tx *m S + Tm) ->
@@ -60,4 +143,11 @@ Theorem port_renumbering (F : fieldType) (n : nat) (P Ts Ti Tx Tm S M : 'M[F]_n)
     (P *m Ts *m invmx P *m (P *m S *m invmx P) + P *m Ti *m invmx P)
     *m invmx (P *m Tx *m invmx P *m (P *m S *m invmx P) + P *m Tm *m invmx P).
 Proof. exact: CalAlgebra.port_renumbering. Qed.
-Print Assumptions port_renumbering.
+Print Assumptions port_renumbering_algebra.
+(* hypotheses met: P a permutation matrix, the ideal VNA, any device *)
+Example port_renumbering_algebra_satisfiable (F : fieldType) (n : nat) (s : 'S_n) (S : 'M[F]_n) :
+  let P := perm_mx s : 'M[F]_n in
+  P *m S *m invmx P =
+    (P *m 1%:M *m invmx P *m (P *m S *m invmx P) + P *m 0 *m invmx P)
+    *m invmx (P *m 0 *m invmx P *m (P *m S *m invmx P) + P *m 1%:M *m invmx P).
+Proof. exact: CalAlgebra.port_renumbering_satisfiable. Qed.
